@@ -644,18 +644,60 @@ var scParts = &netctl.Scenario{
 	Final: final,
 }
 
+// ---- (c2) explicit partitions, a topic loses SOME of its pinned partitions
+// (added after an independent seeded change was missed: a stale pin of a
+// removed partition came back at the next metadata update whenever another
+// partition of the same topic stayed pinned; (c) above only ever removes the
+// last pinned partition of a topic).
+var scPartsPartial = &netctl.Scenario{
+	Name: "partitions-partial", Faults: metaFaults, Horizon: 3 * time.Minute, MaxPoints: 500,
+	Setup: func(x *netctl.Exec) {
+		st := newState(x, 1)
+		st.c = x.Cluster(1)
+		joinThreads(x)
+		st.createTopic("p", 3, false)
+		st.createTopic("q", 2, false)
+		st.m.parts[tp{"p", 0}] = true
+		st.m.parts[tp{"p", 1}] = true
+		start := kgo.NewOffset().AtStart()
+		st.cl = nscen.NewClient(x, "c", st.c, append(baseOpts(), kgo.ConsumePartitions(map[string]map[int32]kgo.Offset{"p": {0: start, 1: start}}))...)
+		x.Thread("APP", func(t *netctl.Thread) {
+			nap(310 * time.Millisecond) // p/0, p/1 normally buffered by now, unpolled
+			t.Step("remove-p0") // p/1 stays pinned
+			st.removeConsumePartitions(map[string][]int32{"p": {0}})
+			t.Step("add-q0-q1")
+			st.addConsumePartitions(map[string][]int32{"q": {0, 1}})
+			t.Step("poll")
+			st.poll(pollWait, -1)
+			t.Step("remove-q1") // q/0 stays pinned
+			st.removeConsumePartitions(map[string][]int32{"q": {1}})
+			st.pollUntil(t, 12*time.Second, 12)
+		})
+		x.Thread("ENV", func(t *netctl.Thread) {
+			nap(envNap)
+			t.Step("addparts-q")
+			st.addPartitions("q", 1) // q/2 never selected; forces a metadata change for q
+			nap(envNap)
+			t.Step("create-z")
+			st.createTopic("z", 1, false)
+		})
+	},
+	Final: final,
+}
+
 var plans = []nrun.Plan{
 	{Scenario: scNames, QuickBudget: 1, ThoroughBudget: 2, Weight: 1.5},
 	{Scenario: scRegex, QuickBudget: 1, ThoroughBudget: 2, Weight: 1},
 	{Scenario: scParts, QuickBudget: 1, ThoroughBudget: 2, Weight: 1},
 	{Scenario: scNamesRemove, QuickBudget: 1, ThoroughBudget: 2, Weight: 0.5},
+	{Scenario: scPartsPartial, QuickBudget: 1, ThoroughBudget: 2, Weight: 0.7},
 }
 
 func TestC39(t *testing.T) {
 	nrun.Main(t, &nrun.Check{
 		ID: "C39", TestName: "TestC39", Plans: plans,
 		QuickTime: 75 * time.Second, ThorTime: 15 * time.Minute,
-		Rule: "engine N: every order of application calls (AddConsumeTopics, AddConsumePartitions, RemoveConsumePartitions, PurgeTopicsFromConsuming, polls), environment actions (create matching / non-matching / excluded / internal topics, CreatePartitions on a consumed topic, DeleteTopics), request/response frame deliveries of the consumer, timer ticks and Metadata connection kills within k deviations of the default timeline, for four direct-consumer configurations (topics by name, by name with RemoveConsumePartitions, regex with exclusion, explicit partitions); every created partition holds 2 records tagged with its identity; distinct = distinct terminal outcomes (deliveries per partition, error classes) per scenario",
+		Rule: "engine N: every order of application calls (AddConsumeTopics, AddConsumePartitions, RemoveConsumePartitions, PurgeTopicsFromConsuming, polls), environment actions (create matching / non-matching / excluded / internal topics, CreatePartitions on a consumed topic, DeleteTopics), request/response frame deliveries of the consumer, timer ticks and Metadata connection kills within k deviations of the default timeline, for five direct-consumer configurations (topics by name, by name with RemoveConsumePartitions, regex with exclusion, explicit partitions, explicit partitions with a topic losing some but not all of its pinned partitions); every created partition holds 2 records tagged with its identity; distinct = distinct terminal outcomes (deliveries per partition, error classes) per scenario",
 		Assume: []string{"kfake is the broker; a topic is internal when kfake's Metadata says IsInternal (topic config kfake.is_internal)", "synctests build of xsync; virtual time", "selection model maintained by the harness from calls that have returned, per the doc comment of each call; under regex a purged topic that still exists is re-discovered (documented), so its records may be delivered once more per purge", "liveness bound: 2 virtual minutes of fault-free pass-through with MetadataMaxAge 5 s"},
 	})
 }
